@@ -124,6 +124,20 @@ CHECKS = {
         "DESIGN.md §4 C12",
         "A",
     ),
+    "C17": (
+        "model_checking",
+        "stateless, deviation/preemption-bounded exploration (CHESS style) of the real halmos/processes.py and solve.solve_low_level under a cooperative scheduler with simulated subprocesses; invariants evaluated on every complete schedule",
+        "halmos/processes.py runs unmodified: threading.{Thread,Lock,RLock,Event,Condition}, concurrent.futures' Condition, the thread pool that shutdown(wait=False) uses, Popen, psutil and time are scheduler-owned shims (module attributes rebound in "
+        "the harness process); scheduling points are every shim operation plus every source line of the racy functions of processes.py (sys.settrace). Process exit, communicate()-timeout expiry and spawn failure are environment choices. For 11 harnesses "
+        "(submit racing shutdown(wait=False|True), two jobs with a graceful shutdown and an independent waiter, a job with a time limit, submit after shutdown, graceful then forceful shutdown, two submitters, spawn failure, solve_low_level with 5 s / 300 ms / no limit "
+        "and with a concurrent early-exit shutdown) every schedule with <= 1 deviation (thorough: <= 2 for the small harnesses) from the default schedule is executed to completion. Invariants per execution: no deadlock or livelock, no uncaught exception, "
+        "every accepted future completes and its waiters get the process output, a job whose limit expired surfaces as TimeoutExpired / `unknown` and never as a result, the limit handed to the process layer is the configured one, once shutdown() has returned "
+        "nobody is still or newly waiting on a live process, submit after shutdown is refused, no process is alive at the end. A free-running pass with real threads and real echo/sleep/sh subprocesses checks the simulated protocol.",
+        "Trusted: mc/sched.py (scheduler, shims, simulated Popen/psutil semantics incl. EBADF when cancel() closes the pipes under communicate()). Memory-model effects below Python statement granularity and real signal delivery latencies are not modelled. "
+        "shutdown(wait=True) re-raising a job's own exception from _join() is tolerated (recorded, not asserted).",
+        "DESIGN.md §4 C17",
+        "B",
+    ),
     "C18": (
         "exploration",
         "exhaustive enumeration of configuration layer stacks, solver source pairs, structured option values and annotation placements, each resolved by the real halmos config code / _main and compared with a reference precedence fold",
